@@ -36,12 +36,22 @@ Local Open Scope N_scope.
    compiler's answer is the reserved-name diagnostic and nothing else. *)
 Definition C17_full_statement : Prop :=
   forall e, in_quantifier e = true ->
-    (reserved_free e = true -> exists cs, compile e = Ok cs /\ C17_spec e cs)
+    (reserved_free e = true -> exists cs, compile e = Ok cs /\ C17_spec_all e cs)
     /\ (reserved_free e = false -> compile e = Err "reserved name").
 
+(* C17_spec_all = C17_spec (schemas and shapes, event oneof, keys, query service and paths, commands, topics,
+   annotations, closed + linkable) /\ spec_names ("all named from the entity name": the exact status values and
+   numbers, the query service's six messages, command services and their methods' messages, publish and upsert
+   topics with their methods and messages) /\ spec_query_settings (the responses of Get / List / Events incl.
+   "events in get"; the default status filters on State.status) *)
 Theorem C17_full : C17_full_statement.
-Proof. intros e Hq. split; [exact (full_modulo_reserved e Hq)|exact (reserved_rejected e Hq)]. Qed.
+Proof. intros e Hq. split; [exact (full_all_clauses e Hq)|exact (reserved_rejected e Hq)]. Qed.
 Print Assumptions C17_full.
+
+(* the exact names and the query settings hold of EVERYTHING the model of the compiler accepts *)
+Theorem C17_names_and_query_settings : forall e cs, compile e = Ok cs -> spec_names e cs /\ spec_query_settings e cs.
+Proof. exact accepted_names_settings. Qed.
+Print Assumptions C17_names_and_query_settings.
 
 (* THE CONVERSE that was missing: on the quantifier the compiler fails IF AND ONLY IF the declaration uses
    a reserved name; the failure is the reserved-name diagnostic; and it succeeds iff there is none *)
